@@ -83,7 +83,7 @@ func runC12(w *World, r *Report, tier string) {
 	}
 	// the read-error exit must exist and return
 	nErrExit := 0
-	walkPaths(rl.errStart, rl.isNextPacket, nil, 20000, func(path []ssa.Instruction, end pathEnd) {
+	walkPaths(rl.brStart, rl.isNextPacket, rl.errOnly(nil), 20000, func(path []ssa.Instruction, end pathEnd) {
 		if _, ok := path[len(path)-1].(*ssa.Return); ok {
 			nErrExit++
 		} else {
@@ -93,12 +93,12 @@ func runC12(w *World, r *Report, tier string) {
 	if nErrExit == 0 {
 		r.Fail("R1", "xmpp.(*Client).recv#exit:read-error", w.pos(fn.Pos()), "no exit on a read error")
 	}
-	checkExit("xmpp.(*Client).recv#exit:read-error", rl.errStart, nil, true, rl.err)
+	checkExit("xmpp.(*Client).recv#exit:read-error", rl.brStart, rl.errOnly(nil), true, rl.err)
 	for _, name := range rl.typeNames(rl.universe) {
 		if name == "stanza.StreamClosePacket" {
 			continue // graceful close: judged by C13.R2
 		}
-		checkExit("xmpp.(*Client).recv#exit:after:"+name, rl.okStart, typeEdgeFilter(rl.pkt, rl.universe[name]), true, nil)
+		checkExit("xmpp.(*Client).recv#exit:after:"+name, rl.brStart, rl.okOnly(typeEdgeFilter(rl.pkt, rl.universe[name])), true, nil)
 	}
 	r.Floor("R1", 2)
 	// a path that goes on reading must not already have reported a loss (it would be reported again by the read error)
@@ -108,7 +108,7 @@ func runC12(w *World, r *Report, tier string) {
 		}
 		bad := ""
 		n := 0
-		walkPaths(rl.okStart, rl.isNextPacket, typeEdgeFilter(rl.pkt, rl.universe[name]), 20000, func(path []ssa.Instruction, end pathEnd) {
+		walkPaths(rl.brStart, rl.isNextPacket, rl.okOnly(typeEdgeFilter(rl.pkt, rl.universe[name])), 20000, func(path []ssa.Instruction, end pathEnd) {
 			if !rl.isNextPacket(path[len(path)-1]) {
 				return
 			}
